@@ -203,6 +203,7 @@ def op_menu():
     for isl in islands:
         ops.append({"op": "select_subnet", "names": isl, "island": True})
     ops.append({"op": "select_subnet", "names": ["j0", "j1", "j2"], "island": False})
+    ops.append({"op": "select_subnet", "names": ["j2", "j3", "j4"], "island": False})   # cuts pipe p1 whose valve sits on j2
     ops.append({"op": "select_subnet", "names": ["j1", "j2", "j3", "j5", "j6", "j7"], "island": False})
     ops.append({"op": "select_subnet", "names": ["j%d" % i for i in range(10)], "island": False})
     return ops
